@@ -17,4 +17,5 @@ def run(ctx):
         select=lambda e: e['ev']['op'] == 'mutate',
         end_walks=((300, 7, 'mutate'), (5000, 10, 'mutate')),
         meta_rule='every MutateCallerCopy transition executed via its shortest prefix on 4 world constructions + random walks',
-        assumptions=[])
+        assumptions=[],
+        focused=(100, 1500))
